@@ -254,6 +254,8 @@ def _script(r, client, world, counter):
                 h = add("net.solve", {"net": P(net)})
                 if r.random() < 0.7:
                     add("nsol.all", {"sol": h})
+                    if r.random() < 0.5:
+                        add("nsol.query", {"sol": h, "q": r.choice(["potential", "voltage", "current", "power"]), "id": r.choice(nids + nnodes)})
                 else:
                     add("nsol.query", {"sol": h, "q": r.choice(["potential", "voltage", "current", "power"]),
                                        "id": "__nope__" if bad else r.choice(nids + nnodes)})
@@ -341,15 +343,22 @@ def _script(r, client, world, counter):
                 add("cir.freqs", {"cir": P(cir), "w_max": r.choice([0, 50.0, 400.0, 1000.0])})
             elif k == "props":
                 add("cir.props", {"cir": P(cir), "id": "__nope__" if bad else r.choice(cids)})
-            elif k == "dc":
-                h = add("cir.dc", {"cir": P(cir)})
+            elif k in ("dc", "cx", "fd"):
+                if k == "dc":
+                    h = add("cir.dc", {"cir": P(cir)})
+                elif k == "cx":
+                    h = add("cir.cx", {"cir": P(cir), "w": r.choice([0, 1.0, 10.0, 100.0, 314.0, 2.5]), "peak": r.random() < 0.5})
+                else:
+                    h = add("cir.fd", {"cir": P(cir), "w_max": r.choice([0, 50.0, 400.0]), "one_sided": r.random() < 0.8})
+                # a solution object is asked again and again: single queries before and after the sweep over everything
+                def one():
+                    q = r.choice(["voltage", "current", "potential", "power"])
+                    add("csol.query", {"sol": h, "q": q, "id": "__nope__" if r.random() < 0.1 else (r.choice(cnodes) if q == "potential" else r.choice(cids))})
+                if r.random() < 0.5:
+                    one()
                 add("csol.all", {"sol": h})
-            elif k == "cx":
-                h = add("cir.cx", {"cir": P(cir), "w": r.choice([0, 1.0, 10.0, 100.0, 314.0, 2.5]), "peak": r.random() < 0.5})
-                add("csol.all", {"sol": h})
-            elif k == "fd":
-                h = add("cir.fd", {"cir": P(cir), "w_max": r.choice([0, 50.0, 400.0]), "one_sided": r.random() < 0.8})
-                add("csol.all", {"sol": h})
+                for _ in range(r.randint(0, 2)):
+                    one()
             else:
                 a = {"cir": P(cir)}
                 for key, suffix in (("potential_nodes", "_pn"), ("voltage_ids", "_vi"), ("current_ids", "_ci")):
@@ -381,6 +390,8 @@ def _script(r, client, world, counter):
                 a["seam_on"] = "solver"
             h = add("cir.tran", a)
             add("csol.all", {"sol": h})
+            if r.random() < 0.5:
+                add("csol.query", {"sol": h, "q": r.choice(["voltage", "current", "power"]), "id": r.choice(cids)})
         elif g == "imp":
             f = r.choice(["open_circuit_impedance", "element_impedance", "open_circuit_dc_resistance", "element_dc_resistance"])
             a = {"cir": P(cir), "f": f}
